@@ -472,6 +472,10 @@ def run(chk):
         cases.append(("tsl_dynstep", [[2, 4], [None, 4]], elw, [[16, 4], [None, 32]]))
         cases.append(("tsl_dynstep", [[None, 2], [None, 4]], elw, [[None, 4], [None, 1]]))
         cases.append(("tsl_dynstep", [[3], [5], [None]], elw, [[None], [None], [1]]))
+        # a one-tile-wide dimension whose outer step equals the row pitch of the dynamic one (a tie between two largest static steps)
+        cases.append(("tsl_dynstep", [[None, 4], [1, 32]], elw, [[None, 32], [32, 1]]))
+        cases.append(("tsl_dynstep", [[1, 32], [None, 4]], elw, [[32, 1], [None, 32]]))
+        cases.append(("tsl_dynstep", [[None]], elw, [[None]]))
     if only in (None, "size"):
         chk.add_results("allocation_size", pmap(case_size, cases, chunks=2))
     acases = [c for k in (1, 2, 3) for c in itertools.product((1, 4, 64), repeat=k)] + [(8, 2, 64, 4)]
